@@ -10,6 +10,7 @@ from ..syn_dbg import sexpr, parse_sexpr
 from .. import tref
 from .dispatch_common import plan_summary
 from . import shape
+from . import groupcorr
 
 PROP = "C11"
 
@@ -72,6 +73,11 @@ def run(tier, seed, replay=None):
     g = PlanGen(rng)
     n = 150 if tier == "quick" else 4000
     plans = [g.basic() for _ in range(n)]
+    # correspondence of the Lean model of the whole grouping front end with the real ImplGroups::parse
+    # (accepted plans, overlapping ones that must be rejected, trait arguments, inherent mode)
+    corr = plans[: (60 if tier == "quick" else 1500)] + [g.overlap()[0] for _ in range(15 if tier == "quick" else 400)] + \
+        [g.trait_args_plan() for _ in range(8 if tier == "quick" else 200)] + [g.inherent() for _ in range(8 if tier == "quick" else 200)]
+    groupcorr.compare(rep, exe, [(p.invocation_text(), [p.block_text(bi) for bi in p.order()]) for p in corr])
     dumps = shape.validate(rep, exe, plans, PROP, judge=False)
     # 1. memberOK / ThetaCovers / KeysOverHeader / ExpandOK were evaluated by shape.validate (judge=False: collect below)
     lean_reqs, where = [], []
